@@ -15,6 +15,8 @@ import DSymVerif.Proofs.Simplify
 import DSymVerif.Proofs.SimplifyCut
 import DSymVerif.Proofs.SimplifyTile
 import DSymVerif.Proofs.SimplifyCollapse
+import DSymVerif.Proofs.SimplifySteps
+import DSymVerif.Proofs.SimplifySkeleton
 
 namespace DSymVerif.C16
 open DSymVerif DSymVerif.DS DSymVerif.Simp
@@ -179,5 +181,227 @@ theorem cut_tile_commutes {ds s : DSetData} (hv : ValidSet ds) (hdim : ds.dim = 
 /-- `cut_tile(ex8, [1, 2])` returns (opposites 4, 3), and 1, 2 are 0-adjacent -/
 example : (∃ s, cutTile ex8 [1, 2] = .ok s) ∧ ex8.opU 0 1 = 2 ∧ ex8.opU 0 2 = 1 :=
   ⟨isOk_exists (by decide +kernel), by decide, by decide⟩
+
+/-! ### the D-set axioms as invariants of the modelled steps
+
+`Axioms3 ds` = complete with involutive operations (`ValidSet`), dimension 3, far operations
+commute (s0s2, s0s3, s1s3: the D-symbol axiom m_ij = 2).  These are the Spec clauses
+"entries-in-range-and-involutive", "complete", "far-operations-commute" of Spec/C16, now theorems
+about every modelled deterministic step.  Two kinds of hypotheses remain explicit:
+  * `InnerWallsAreFaces` — the one fact about `inner_edges` (fundamental_group.rs) used: the
+    3-edges it declares inner come in whole faces (closed under s0, s1); needed for `merge_tiles`;
+  * general position of the local moves: the eight chambers a corner re-gluing / squeeze touches
+    are distinct (true in loopless oriented D-sets away from self-glued faces; in the degenerate
+    coincidences the real code still runs and is covered by the Spec, not by these theorems). -/
+
+/-- ○ **`collapse` preserves commuting far operations** when the removed set is closed under every
+    operation but one (`j`, re-routed around the removed chambers) and the operations far from `j`
+    commute with the connector on the removed set.  Covers all four callers. -/
+theorem collapse_preserves_far_commute {ds s : DSetData} {num : Nat → Nat} {remove : List Nat} {c j : Nat}
+    (hv : ValidSet ds) (hf : FarCommute ds) (res : CollapseRes ds remove c s num)
+    (hc : c ≤ ds.dim) (hj : j ≤ ds.dim)
+    (hclosed : ∀ i, i ≤ ds.dim → i ≠ j → ∀ d ∈ remove, ds.opU i d ∈ remove)
+    (hcomm : ∀ k, k ≤ ds.dim → (k + 1 < j ∨ j + 1 < k) → ∀ d ∈ remove,
+      ds.opU k (ds.opU c d) = ds.opU c (ds.opU k d)) :
+    FarCommute s :=
+  collapse_far_commute hv hf res hc hj hclosed hcomm
+
+/-- ○ **`reglue` preserves commuting far operations** when the pairing is equivariant under every
+    operation far from `index` -/
+theorem reglue_preserves_far_commute {ds s : DSetData} {pairs : List (Nat × Nat)} {index : Nat} (hv : ValidSet ds)
+    (hf : FarCommute ds) (h : reglue ds pairs index = .ok (some s)) (hidx : index ≤ ds.dim)
+    (heq : ∀ k, k ≤ ds.dim → (k + 1 < index ∨ index + 1 < k) → ∀ x y, 1 ≤ x → x ≤ ds.size →
+      pairedGet pairs x = some y → pairedGet pairs (ds.opU k x) = some (ds.opU k y)) :
+    FarCommute s :=
+  reglue_far_commute hv hf h hidx heq
+
+/-- ○ **`cut_face` keeps the D-set axioms** -/
+theorem cut_face_preserves_axioms {ds s : DSetData} (hax : Axioms3 ds)
+    {d1 d2 : Nat} (h11 : 1 ≤ d1) (h12 : d1 ≤ ds.size) (h21 : 1 ≤ d2) (h22 : d2 ≤ ds.size)
+    (h : cutFace ds d1 d2 = .ok s) : Axioms3 s :=
+  let ⟨a, _, c, _, _, f⟩ := cutFace_commutes hax.1 hax.2.1 h11 h12 h21 h22 h
+  ⟨a, c, f hax.2.2⟩
+
+example : Axioms3 ex8 ∧ ∃ s, cutFace ex8 1 2 = .ok s :=
+  ⟨axioms3_of_bool (by decide) rfl (by decide), isOk_exists (by decide +kernel)⟩
+
+/-- ○ **`cut_tile` keeps the D-set axioms** when the cut chambers come in 0-adjacent pairs
+    (`s0 cut[k] = cut[k xor 1]`, as `split_and_glue_attempt` builds them) -/
+theorem cut_tile_preserves_axioms {ds s : DSetData} (hax : Axioms3 ds) {cut : List Nat}
+    (hcut : ∀ k, k < cut.length → 1 ≤ cut.getD k 0 ∧ cut.getD k 0 ≤ ds.size)
+    (hadj : ∀ k, k < cut.length → ds.opU 0 (cut.getD k 0) = cut.getD (if k % 2 = 0 then k + 1 else k - 1) 0)
+    (h : cutTile ds cut = .ok s) : Axioms3 s :=
+  let ⟨a, _, c, _, _, _, f⟩ := cutTile_commutes hax.1 hax.2.1 hcut h
+  ⟨a, c, f hadj hax.2.2⟩
+
+example : Axioms3 ex8 ∧ (∃ s, cutTile ex8 [1, 2] = .ok s) ∧ ex8.opU 0 1 = 2 ∧ ex8.opU 0 2 = 1 :=
+  ⟨axioms3_of_bool (by decide) rfl (by decide), isOk_exists (by decide +kernel), by decide, by decide⟩
+
+/-- ○ **`squeeze_tile_3d` keeps the D-set axioms** (the eight chambers involved distinct) -/
+theorem squeeze_preserves_axioms {ds s : DSetData} (hax : Axioms3 ds)
+    {d e : Nat} (hd1 : 1 ≤ d) (hd2 : d ≤ ds.size) (he1 : 1 ≤ e) (he2 : e ≤ ds.size)
+    (hnd : [ds.opU 0 e, d, ds.opU 0 d, e, ds.opU 2 (ds.opU 0 e), ds.opU 2 d, ds.opU 2 (ds.opU 0 d), ds.opU 2 e].Nodup)
+    (h : squeezeTile3d ds d e = .ok s) : Axioms3 s :=
+  let ⟨a, _, c, f⟩ := squeeze_far_commute hax.1 hax.2.1 hax.2.2 hd1 hd2 he1 he2 hnd h
+  ⟨a, by rw [c]; exact hax.2.1, f⟩
+
+/-- in `exFix2` (a state of the real pipeline) the chambers 1 and 3 are in general position -/
+example : Axioms3 exFix2 ∧ [exFix2.opU 0 3, 1, exFix2.opU 0 1, 3, exFix2.opU 2 (exFix2.opU 0 3), exFix2.opU 2 1,
+    exFix2.opU 2 (exFix2.opU 0 1), exFix2.opU 2 3].Nodup ∧ ∃ s, squeezeTile3d exFix2 1 3 = .ok s :=
+  ⟨axioms3_of_bool (by decide +kernel) rfl (by decide +kernel), by decide +kernel, isOk_exists (by decide +kernel)⟩
+
+/-- ○ **`merge_facets` keeps the D-set axioms** — unconditionally: the junk list (all (2,3)-orbits
+    of length 2, computed by `orbit_reps` / `r` / `orbit`) is closed under s0, s2, s3, the
+    operations s2, s3 commute on it, and `collapse` with connector 2 re-routes s1 around it. -/
+theorem merge_facets_preserves_axioms {ds s : DSetData} (hax : Axioms3 ds)
+    (h : mergeFacets (.dset ds) = .ok (some (.dset s))) : Axioms3 s :=
+  mergeFacets_preserves hax.1 hax.2.1 hax.2.2 h
+
+example : Axioms3 exFacets ∧ ∃ s, mergeFacets (.dset exFacets) = .ok (some (.dset s)) :=
+  ⟨axioms3_of_bool (by decide +kernel) rfl (by decide +kernel), returnsDSet_exists (by decide +kernel)⟩
+
+/-- ○ **`merge_tiles` keeps the D-set axioms** when the walls it removes consist of whole faces -/
+theorem merge_tiles_preserves_axioms {ds s : DSetData} (hax : Axioms3 ds) (hw : TilesJunkFaces ds)
+    (h : mergeTiles (.dset ds) = .ok (some (.dset s))) : Axioms3 s :=
+  mergeTiles_model_preserves hax hw h
+
+example : Axioms3 exTiles ∧ ∃ s, mergeTiles (.dset exTiles) = .ok (some (.dset s)) :=
+  ⟨axioms3_of_bool (by decide +kernel) rfl (by decide +kernel), returnsDSet_exists (by decide +kernel)⟩
+
+/-- ○ **`dual` keeps the D-set axioms** -/
+theorem dual_preserves_axioms {ds s : DSetData} (hax : Axioms3 ds)
+    (h : Simp.dual (.dset ds) = .ok (some (.dset s))) : Axioms3 s :=
+  dual_axioms hax h
+
+example : Axioms3 ex8 ∧ ∃ s, Simp.dual (.dset ex8) = .ok (some (.dset s)) :=
+  ⟨axioms3_of_bool (by decide) rfl (by decide), returnsDSet_exists (by decide +kernel)⟩
+
+/-- ○ **`merge_all` keeps the D-set axioms** (given the fact about `inner_edges`) -/
+theorem merge_all_preserves_axioms (hw : InnerWallsAreFaces) {ds s : DSetData} (hax : Axioms3 ds)
+    (h : mergeAll (.dset ds) = .ok (some (.dset s))) : Axioms3 s :=
+  mergeAll_preserves hw hax h
+
+example : Axioms3 exAll ∧ ∃ s, mergeAll (.dset exAll) = .ok (some (.dset s)) :=
+  ⟨axioms3_of_bool (by decide +kernel) rfl (by decide +kernel), returnsDSet_exists (by decide +kernel)⟩
+
+/-- ○ **`fix_local_1_vertex` keeps the D-set axioms** (the eight chambers of the corner re-gluing
+    it performs distinct) -/
+theorem fix_local_1_vertex_preserves_axioms {ds s : DSetData} (hax : Axioms3 ds)
+    (hnd : ∀ c, 1 ≤ c → c ≤ ds.size → fixLocal1Body ds c = .ok (some (.dset s)) →
+      [ds.opU 0 (ds.opU 1 c), ds.opU 1 (ds.opU 1 (ds.opU 0 c)), ds.opU 1 (ds.opU 0 c),
+        ds.opU 1 (ds.opU 0 (ds.opU 1 c)), ds.opU 3 (ds.opU 0 (ds.opU 1 c)),
+        ds.opU 1 (ds.opU 3 (ds.opU 1 (ds.opU 0 c))), ds.opU 3 (ds.opU 1 (ds.opU 0 c)),
+        ds.opU 1 (ds.opU 3 (ds.opU 0 (ds.opU 1 c)))].Nodup)
+    (h : fixLocal1Vertex (.dset ds) = .ok (some (.dset s))) : Axioms3 s :=
+  fixLocal1Vertex_preserves hax.1 hax.2.1 hax.2.2 hnd h
+
+/-- ○ **`fix_local_2_vertex` keeps the D-set axioms** (the eight chambers of the squeeze it performs
+    distinct in the D-set after the face cuts, `fix2Pre`) -/
+theorem fix_local_2_vertex_preserves_axioms {ds s : DSetData} (hax : Axioms3 ds)
+    (hnd : ∀ d ds' a b, 1 ≤ d → d ≤ ds.size → fix2Pre ds d = .ok (ds', a, b) →
+      [ds'.opU 0 b, a, ds'.opU 0 a, b, ds'.opU 2 (ds'.opU 0 b), ds'.opU 2 a, ds'.opU 2 (ds'.opU 0 a),
+        ds'.opU 2 b].Nodup)
+    (h : fixLocal2Vertex (.dset ds) = .ok (some (.dset s))) : Axioms3 s :=
+  fixLocal2Vertex_preserves hax.1 hax.2.1 hax.2.2 hnd h
+
+example : Axioms3 exFix2 ∧ ∃ s, fixLocal2Vertex (.dset exFix2) = .ok (some (.dset s)) :=
+  ⟨axioms3_of_bool (by decide +kernel) rfl (by decide +kernel), returnsDSet_exists (by decide +kernel)⟩
+
+/-- ○ **`fix_non_disk_face` keeps the D-set axioms** (the eight chambers of the corner re-gluing it
+    performs distinct) -/
+theorem fix_non_disk_face_preserves_axioms {ds s : DSetData} (hax : Axioms3 ds)
+    (hnd : ∀ d e, 1 ≤ d → d ≤ ds.size → 1 ≤ e → e ≤ ds.size → nonDiskGlue ds d e = .ok (some (.dset s)) →
+      [d, ds.opU 1 e, e, ds.opU 1 d, ds.opU 3 d, ds.opU 1 (ds.opU 3 e), ds.opU 3 e, ds.opU 1 (ds.opU 3 d)].Nodup)
+    (h : fixNonDiskFace (.dset ds) = .ok (some (.dset s))) : Axioms3 s :=
+  fixNonDiskFace_preserves hax.1 hax.2.1 hax.2.2 hnd h
+
+example : Axioms3 exFnd ∧ ∃ s, fixNonDiskFace (.dset exFnd) = .ok (some (.dset s)) :=
+  ⟨axioms3_of_bool (by decide +kernel) rfl (by decide +kernel), returnsDSet_exists (by decide +kernel)⟩
+
+/-- ○ **`simplify_step_preserves_dset_axioms`.**  Every modelled deterministic step of `simplify`
+    maps a complete 3-dimensional D-set with involutive operations and commuting far operations to
+    one again (hypotheses as explained above; `split_and_glue` is not modelled — its building
+    blocks `cut_face`, `cut_tile`, `collapse` are covered by the theorems above). -/
+theorem simplify_step_preserves_dset_axioms (hw : InnerWallsAreFaces) {ds s : DSetData} (hax : Axioms3 ds) :
+    (mergeTiles (.dset ds) = .ok (some (.dset s)) → Axioms3 s) ∧
+    (mergeFacets (.dset ds) = .ok (some (.dset s)) → Axioms3 s) ∧
+    (Simp.dual (.dset ds) = .ok (some (.dset s)) → Axioms3 s) ∧
+    (mergeAll (.dset ds) = .ok (some (.dset s)) → Axioms3 s) ∧
+    (fixLocal1Vertex (.dset ds) = .ok (some (.dset s)) →
+      (∀ c, 1 ≤ c → c ≤ ds.size → fixLocal1Body ds c = .ok (some (.dset s)) →
+        [ds.opU 0 (ds.opU 1 c), ds.opU 1 (ds.opU 1 (ds.opU 0 c)), ds.opU 1 (ds.opU 0 c),
+          ds.opU 1 (ds.opU 0 (ds.opU 1 c)), ds.opU 3 (ds.opU 0 (ds.opU 1 c)),
+          ds.opU 1 (ds.opU 3 (ds.opU 1 (ds.opU 0 c))), ds.opU 3 (ds.opU 1 (ds.opU 0 c)),
+          ds.opU 1 (ds.opU 3 (ds.opU 0 (ds.opU 1 c)))].Nodup) → Axioms3 s) ∧
+    (fixLocal2Vertex (.dset ds) = .ok (some (.dset s)) →
+      (∀ d ds' a b, 1 ≤ d → d ≤ ds.size → fix2Pre ds d = .ok (ds', a, b) →
+        [ds'.opU 0 b, a, ds'.opU 0 a, b, ds'.opU 2 (ds'.opU 0 b), ds'.opU 2 a, ds'.opU 2 (ds'.opU 0 a),
+          ds'.opU 2 b].Nodup) → Axioms3 s) ∧
+    (fixNonDiskFace (.dset ds) = .ok (some (.dset s)) →
+      (∀ d e, 1 ≤ d → d ≤ ds.size → 1 ≤ e → e ≤ ds.size → nonDiskGlue ds d e = .ok (some (.dset s)) →
+        [d, ds.opU 1 e, e, ds.opU 1 d, ds.opU 3 d, ds.opU 1 (ds.opU 3 e), ds.opU 3 e,
+          ds.opU 1 (ds.opU 3 d)].Nodup) → Axioms3 s) :=
+  ⟨fun h => mergeTiles_model_preserves hax (hw ds hax) h,
+   fun h => mergeFacets_preserves hax.1 hax.2.1 hax.2.2 h,
+   fun h => dual_axioms hax h,
+   fun h => mergeAll_preserves hw hax h,
+   fun h hnd => fixLocal1Vertex_preserves hax.1 hax.2.1 hax.2.2 hnd h,
+   fun h hnd => fixLocal2Vertex_preserves hax.1 hax.2.1 hax.2.2 hnd h,
+   fun h hnd => fixNonDiskFace_preserves hax.1 hax.2.1 hax.2.2 hnd h⟩
+
+
+/-! ### make_skeleton, network_edges: the graph `split_and_glue` cuts -/
+
+/-- ○ **`make_skeleton` is the 1-skeleton graph of the tiles.**  On a complete D-set on which s0 and
+    s2 commute `make_skeleton` returns `(elm_to_index, reps, edges)`: `reps` has one chamber per
+    (1,2)-orbit (vertex of a tile), two chambers have the same `elm_to_index` iff they lie in the same
+    (1,2)-orbit (and the index points at the rep of that orbit), and `(a, b) ∈ edges` iff a ≤ b are
+    the vertex indices at the two ends `d`, `s0 d` of some (0,2)-orbit (edge of a tile). -/
+theorem make_skeleton_is_tile_skeleton {ds : DSetData} (hv : ValidSet ds) (hdim : 2 ≤ ds.dim)
+    (hc02 : ∀ x, 1 ≤ x → x ≤ ds.size → ds.opU 2 (ds.opU 0 x) = ds.opU 0 (ds.opU 2 x)) :
+    ∃ e2i edges, makeSkeleton ds = .ok (e2i, ds.viewPartial.orbitReps [1, 2] (seedsIncl ds), edges) ∧
+      e2i.size = ds.size + 1 ∧
+      (∀ x, 1 ≤ x → x ≤ ds.size →
+        ∃ r, (ds.viewPartial.orbitReps [1, 2] (seedsIncl ds))[e2i.getD x 0]? = some r ∧
+          ds.viewPartial.Reach [1, 2] r x) ∧
+      (∀ x y, 1 ≤ x → x ≤ ds.size → 1 ≤ y → y ≤ ds.size →
+        (e2i.getD x 0 = e2i.getD y 0 ↔ ds.viewPartial.Reach [1, 2] x y)) ∧
+      (∀ p, p ∈ edges ↔ ∃ d, 1 ≤ d ∧ d ≤ ds.size ∧
+        p = (min (e2i.getD d 0) (e2i.getD (ds.opU 0 d) 0), max (e2i.getD d 0) (e2i.getD (ds.opU 0 d) 0))) :=
+  makeSkeleton_spec hv hdim hc02
+
+example : ValidSet ex8 ∧ ∀ x, 1 ≤ x → x ≤ ex8.size → ex8.opU 2 (ex8.opU 0 x) = ex8.opU 0 (ex8.opU 2 x) :=
+  ⟨ex8_valid, fun x h1 h2 => (farCommuteB_sound (s := ex8) (by decide)) 0 2 x (by decide) (by decide) h1 h2⟩
+
+open DSymVerif.Cut DSymVerif.SpecC19 DSymVerif.CutP in
+/-- ○ **The cut `network_cut` computes is a minimum vertex cut of the tile skeleton** (ties C16 to
+    C19).  With `(elm_to_index, reps, edges)` from `make_skeleton` and `net` any list with the members
+    of `network_edges(..)` (the Rust code lists the source and sink edges in `HashSet` order),
+    `min_vertex_cut_undirected(net, source, sink)` returns; its cut meets every walk from the source
+    (joined to the vertices of the face of d, in edge mode also of s2 d) to the sink (joined to the
+    vertices of the face of s3 d) in an inner vertex; no vertex set avoiding source and sink that
+    meets all such walks is smaller; `inside` is what stays reachable from the source. -/
+theorem network_cut_is_minimum_vertex_cut {ds : DSetData} (hv : ValidSet ds) (hdim : ds.dim = 3)
+    (hc02 : ∀ x, 1 ≤ x → x ≤ ds.size → ds.opU 2 (ds.opU 0 x) = ds.opU 0 (ds.opU 2 x))
+    {d : Nat} (hd1 : 1 ≤ d) (hd2 : d ≤ ds.size) (mode : Bool)
+    {e2i : Array Nat} {reps : List Nat} {edges net0 net : List (Nat × Nat)}
+    (hsk : makeSkeleton ds = .ok (e2i, reps, edges))
+    (hnet0 : networkEdges ds d mode e2i edges (skelSource e2i) (skelSource e2i + 1) = .ok net0)
+    (hperm : ∀ p, p ∈ net ↔ p ∈ net0) :
+    ∃ r, minVertexCutUndirected net (skelSource e2i) (skelSource e2i + 1) = .ok r ∧
+      (∀ p, IsWalk (sym net) (skelSource e2i) (skelSource e2i + 1) p → ∃ x ∈ internal p, x ∈ r.cut) ∧
+      (∀ C : List Nat, skelSource e2i ∉ C → skelSource e2i + 1 ∉ C →
+        (∀ p, IsWalk (sym net) (skelSource e2i) (skelSource e2i + 1) p → ∃ x ∈ p, x ∈ C) →
+        r.cut.length ≤ C.length) ∧
+      r.cut.Nodup ∧ skelSource e2i ∉ r.cut ∧ skelSource e2i + 1 ∉ r.cut ∧
+      (∀ v, (v = skelSource e2i ∨ v ∈ r.inside) ↔
+        ∃ p, IsWalk (removeVertices (sym net) r.cut) (skelSource e2i) v p) :=
+  network_cut_minimum hv hdim hc02 hd1 hd2 mode hsk hnet0 hperm
+
+/-- on `exFix2` (a state of the real pipeline) skeleton and network exist for chamber 1 -/
+example : (match makeSkeleton exFix2 with
+    | .ok (e2i, _, edges) => (networkEdges exFix2 1 true e2i edges (skelSource e2i) (skelSource e2i + 1)).isOk
+    | _ => false) = true := by decide +kernel
+
 
 end DSymVerif.C16
